@@ -69,8 +69,11 @@ CPShape(in) == [k \in 1..Len(in.fs) |-> in.fs[k].shape[1]]
 Wt(in, r)   == IF in.hasw THEN in.w[r] ELSE 1
 CPFactorsOK(in) == /\ Len(in.fs) >= 1 /\ \A k \in 1..Len(in.fs) : IsT(in.fs[k], 2)
 CPRanksMatch(in) == \A k \in 1..Len(in.fs) : in.fs[k].shape[2] = CPRank(in)
+\* the weights are ONE vector of length R: shape (R,) -- not (R,1), (R,R), (1,R), 0-d ... (logged in in.wshape when
+\* the harness has it; records built inside the specifications carry the flat vector only)
+WShapeOK(in, R) == ~in.hasw \/ (Len(in.w) = R /\ ("wshape" \in DOMAIN in => in.wshape = <<R>>))
 ValidCP(in) == /\ CPFactorsOK(in) /\ PosAll(in.fs) /\ CPRanksMatch(in)
-               /\ (in.hasw => Len(in.w) = CPRank(in) /\ \A r \in 1..Len(in.w) : in.w[r] \in Int)
+               /\ WShapeOK(in, CPRank(in)) /\ (in.hasw => \A r \in 1..Len(in.w) : in.w[r] \in Int)
 CPDense(in) ==
     Build(CPShape(in), LAMBDA idx :
         FSum(CPRank(in), LAMBDA r : Wt(in, r) * FProd(Len(in.fs), LAMBDA k : E2(in.fs[k], idx[k], r - 1))))
@@ -223,8 +226,8 @@ Orthonormal(P, d) == \A s, t \in 0..(P.shape[2] - 1) : ColDot(P, s, t) = (IF s =
 P2Orthonormal(in) == \A i \in 1..Len(in.ps) : Orthonormal(in.ps[i], in.pden)
 ValidP2(in) == /\ P2PartsOK(in) /\ PosAll(in.fs) /\ PosAll(in.ps) /\ in.pden = 1 /\ Len(in.ps) = in.fs[1].shape[1]
                /\ P2RanksMatch(in) /\ in.fs[2].shape[1] = P2Rank(in)
-               /\ P2Orthonormal(in)
-               /\ (in.hasw => Len(in.w) = P2Rank(in) /\ \A r \in 1..Len(in.w) : in.w[r] \in Int)
+               /\ P2Orthonormal(in) /\ WShapeOK(in, P2Rank(in))
+               /\ (in.hasw => \A r \in 1..Len(in.w) : in.w[r] \in Int)
 \* evolving factor B_i = P_i B, entry (j, r)   (i is 1-based here, j, r 0-based)
 P2Bi(in, i, j, r) == FSum(P2Rank(in), LAMBDA s : E2(in.ps[i], j, s - 1) * E2(in.fs[2], s - 1, r))
 \* entry (j, k) of slice i:  ((P_i B) diag(w o A[i, :]) C^T)[j, k]
@@ -262,12 +265,13 @@ RankOf(kind, in) ==
 \* The three classes of structurally invalid inputs the property names.  An input in one of them
 \* MUST be rejected; an input that is invalid for another reason carries no obligation.
 MismatchedRanks(kind, in) ==
-    CASE kind = "cp" -> CPFactorsOK(in) /\ ~CPRanksMatch(in)
+    \* (a weight array that is not one weight per component is a rank mismatch, too)
+    CASE kind = "cp" -> CPFactorsOK(in) /\ (~CPRanksMatch(in) \/ ~WShapeOK(in, CPRank(in)))
       [] kind = "tucker" -> TuckerPartsOK(in) /\ Len(in.fs) = Len(in.core.shape) /\ ~TuckerRanksMatch(in)
       [] kind = "tt" -> CoresOK(in, 3) /\ ~ChainMatch(in, 3)
       [] kind = "tr" -> CoresOK(in, 3) /\ ~ChainMatch(in, 3)
       [] kind = "ttm" -> CoresOK(in, 4) /\ ~ChainMatch(in, 4)
-      [] kind = "p2" -> P2PartsOK(in) /\ ~P2RanksMatch(in)
+      [] kind = "p2" -> P2PartsOK(in) /\ (~P2RanksMatch(in) \/ ~WShapeOK(in, P2Rank(in)))
       [] OTHER -> FALSE
 WrongBoundary(kind, in) ==
     CASE kind = "tt" -> CoresOK(in, 3) /\ ~Boundary1(in, 3)
@@ -275,7 +279,7 @@ WrongBoundary(kind, in) ==
       [] kind = "tr" -> CoresOK(in, 3) /\ ~RingClosed(in)
       [] OTHER -> FALSE
 NonOrthonormal(kind, in) ==
-    kind = "p2" /\ P2PartsOK(in) /\ P2RanksMatch(in) /\ ~P2Orthonormal(in)
+    kind = "p2" /\ P2PartsOK(in) /\ P2RanksMatch(in) /\ WShapeOK(in, P2Rank(in)) /\ ~P2Orthonormal(in)
 MustReject(kind, in) == MismatchedRanks(kind, in) \/ WrongBoundary(kind, in) \/ NonOrthonormal(kind, in)
 
 \* ============================================================================ bounded domain
@@ -291,7 +295,7 @@ P2Roots == {<<I, K>> : I \in 2..3, K \in 1..MaxDim}
 \* the rank / column count one too large, -1: one too small -- down to rank 0 and boundary rank 0).
 \* Both directions matter: a validator that only looks for an excess (or only for a deficit) is wrong.
 Rec(op, s, r, hw, ls) == [op |-> op, shape |-> s, rank |-> r, hasw |-> hw, lens |-> ls, bad |-> "none", at |-> 0, dl |-> 0,
-                          skip |-> -1, tr |-> FALSE, modes |-> <<>>, mix |-> "none", late |-> FALSE, mag |-> 0]
+                          skip |-> -1, tr |-> FALSE, modes |-> <<>>, mix |-> "none", late |-> FALSE, mag |-> 0, tmag |-> 0, zero |-> "none"]
 \* Mixed storage types across the parts of ONE factorised tensor (valid family).  "<type>_first/last":
 \* the first / last factor (core, for TT-like formats) is stored as int64, float32 or complex128, every
 \* other array as float64.  Non-integer arrays hold half-integers (numerators over the denominator 2
@@ -312,13 +316,18 @@ Mags == {-500, -70, 300}
 MixCfgs(base) == IF base.op \notin {"p2", "ttm"} /\ (Size(base.shape) > MaxBadSize \/ Len(base.shape) > 3) THEN {}
                  ELSE {[base EXCEPT !.mix = m] : m \in MixNames}
                       \cup {[base EXCEPT !.mag = e] : e \in Mags} \cup {[base EXCEPT !.late = TRUE]}
+                      \* TOTAL magnitude: one whole part scaled by 2^tmag, uncompensated -- the tensor, every view and the
+                      \* norm scale by exactly 2^tmag (MixHomogeneous); an exactly-zero tensor (one part all zero) has norm
+                      \* exactly 0; the same in single precision ("f32_all": every array float32)
+                      \cup {[base EXCEPT !.tmag = e] : e \in {-30, 300}}
+                      \cup {[base EXCEPT !.zero = "part"], [base EXCEPT !.mix = "f32_all"], [base EXCEPT !.mix = "f32_all", !.zero = "part"]}
 MixType(c) == CASE c.mix \in {"int_first", "int_last"} -> "int64"
-                [] c.mix \in {"f32_first", "f32_last"} -> "float32"
+                [] c.mix \in {"f32_first", "f32_last", "f32_all"} -> "float32"
                 [] c.mix \in {"cplx_first", "cplx_last"} -> "complex128"
                 [] OTHER -> "float64"
 \* NumPy's promotion on this sub-lattice: int64, float32 < float64 < complex128
 \* (a single-core TT-matrix has no second array to promote with: it keeps its own type)
-MixOut(c) == IF c.op = "ttm" /\ Len(c.shape) = 2 THEN MixType(c)
+MixOut(c) == IF (c.op = "ttm" /\ Len(c.shape) = 2) \/ c.mix = "f32_all" THEN MixType(c)
              ELSE IF c.mix \in {"cplx_first", "cplx_last"} THEN "complex128" ELSE "float64"
 \* Tucker view options (valid family): every skip position, transposed factors, explicit mode lists
 TuckerOptCfgs(s) ==
@@ -331,6 +340,13 @@ TuckerOptCfgs(s) ==
          \cup {[Rec("tucker", s, r, FALSE, <<>>) EXCEPT !.modes = [q \in 1..N |-> N - q]]}            \* factors listed in reverse mode order
          \cup {[Rec("tucker", s, r, FALSE, <<>>) EXCEPT !.modes = DropAt(all, 1), !.skip = 0, !.tr = TRUE]}
        : r \in rs}
+    \* the same options with a COMPLEX first / last factor: transpose_factors means the CONJUGATE transpose
+    \cup (IF Size(s) > MaxBadSize \/ N > 3 THEN {} ELSE
+          LET r == [q \in 1..N |-> 1 + (q % 2)]  b == Rec("tucker", s, r, FALSE, <<>>) IN
+          {[x EXCEPT !.mix = m] :
+              x \in ({[b EXCEPT !.skip = k, !.tr = t] : k \in -1..(N - 1), t \in BOOLEAN} \ {b})
+                    \cup {[b EXCEPT !.modes = DropAt(all, N)], [b EXCEPT !.modes = [q \in 1..N |-> N - q], !.tr = TRUE]},
+              m \in {"cplx_first", "cplx_last"}})
 Perturb(base, names, ats, dls) ==
     IF base.op # "p2" /\ Size(base.shape) > MaxBadSize THEN {}
     ELSE LET S == {[base EXCEPT !.bad = b, !.at = k, !.dl = d] : b \in names, k \in ats, d \in dls} IN
@@ -346,6 +362,7 @@ CfgsOf(root) ==
             \cup MixCfgs(Rec("cp", s, <<2>>, TRUE, <<>>))
             \cup UNION {Perturb(Rec("cp", s, <<r>>, TRUE, <<>>), {"fcols"}, 1..N, {1, -1}) : r \in 1..2}
             \cup Perturb(Rec("cp", s, <<2>>, TRUE, <<>>), {"wlen"}, {0}, {1, -1})
+            \cup Perturb(Rec("cp", s, <<2>>, TRUE, <<>>), {"wshape"}, 1..5, {0})       \* weights of the wrong ndim / shape
       [] kd = "tucker" ->
             {Rec("tucker", s, r, FALSE, <<>>) : r \in RankVecs(N)} \cup TuckerOptCfgs(s)
             \cup MixCfgs(Rec("tucker", s, [q \in 1..N |-> 1 + (q % 2)], FALSE, <<>>))
@@ -376,6 +393,7 @@ CfgsOf(root) ==
             \cup Perturb(ib, NonOrthNames, 1..s[1], {0})
             \cup Perturb(ib, {"bcols", "ccols"}, {0}, {1, -1})
             \cup Perturb(ib, {"nproj"}, {0}, {-1})
+            \cup Perturb(ib, {"wlen"}, {0}, {1, -1}) \cup Perturb(ib, {"wshape"}, 1..5, {0})
 
 ValidCfg(c) ==
     /\ c.op \in Kinds
@@ -406,6 +424,14 @@ PShapes(c) ==
                        THEN (IF c.dl = 1 THEN <<c.lens[i] + 1, c.rank[1] + 1>> ELSE <<c.lens[i], c.rank[1] - 1>>)
                        ELSE <<c.lens[i], c.rank[1]>>]
          IN  IF c.bad = "nproj" THEN Tail(all) ELSE all
+\* shape of the weight array: (R,) -- or one too long / short ("wlen"), or of the wrong ndim ("wshape", variant `at`)
+WShapeOf(c) ==
+    LET R == c.rank[1] IN
+    IF ~c.hasw THEN <<>>
+    ELSE IF c.bad = "wlen" THEN <<R + c.dl>>
+    ELSE IF c.bad = "wshape" THEN (CASE c.at = 1 -> <<R, 1>> [] c.at = 2 -> <<R, R>> [] c.at = 3 -> <<R, 2>>
+                                     [] c.at = 4 -> <<>> [] OTHER -> <<1, R>>)
+    ELSE <<R>>
 RotL(q) == IF Len(q) <= 1 THEN q ELSE Tail(q) \o <<Head(q)>>
 BaseOf(c) ==
     IF c.bad # "none" THEN [c EXCEPT !.bad = "none", !.at = 0, !.dl = 0]        \* the unperturbed valid configuration
@@ -422,13 +448,13 @@ Expand(c) ==
     [op |-> c.op, shape |-> c.shape, rank |-> c.rank, hasw |-> c.hasw, bad |-> c.bad, at |-> c.at, dl |-> c.dl,
      lens |-> c.lens,
      fshapes |-> FactorShapes(c),
-     wlen |-> IF c.hasw THEN c.rank[1] + (IF c.bad = "wlen" THEN c.dl ELSE 0) ELSE 0,
+     wshape |-> WShapeOf(c), wlen |-> IF c.hasw THEN Size(WShapeOf(c)) ELSE 0,
      skip |-> c.skip, tr |-> c.tr, modes |-> c.modes,
      \* with transposed factors the "core" is the tensor the factors project (mode sizes = the factors' row counts)
      coreshape |-> IF c.op = "tucker" THEN (IF c.tr THEN c.shape ELSE c.rank) ELSE <<>>,
      pshapes |-> PShapes(c),
      pden |-> IF c.bad = "nonorth_half" THEN 2 ELSE 1,
-     mix |-> c.mix, late |-> c.late, mag |-> c.mag,
+     mix |-> c.mix, late |-> c.late, mag |-> c.mag, tmag |-> c.tmag, zero |-> c.zero,
      \* LATE: array shapes of the valid configuration the wrapper object is built from before its parts are replaced
      bfshapes |-> IF c.late THEN FactorShapes(BaseOf(c)) ELSE <<>>,
      bcoreshape |-> IF c.late /\ c.op = "tucker" THEN BaseOf(c).rank ELSE <<>>,
@@ -436,15 +462,16 @@ Expand(c) ==
      bwlen |-> IF c.late /\ c.hasw THEN BaseOf(c).rank[1] ELSE 0,
      \* storage type and denominator of every factor array, the position of the complex one (0: none),
      \* the denominator of the Tucker core, and the promoted type every view must come back in
-     dtypes |-> [k \in 1..Len(FactorShapes(c)) |-> IF c.mix # "none" /\ k = MixAt(c) THEN MixType(c) ELSE "float64"],
-     dens   |-> [k \in 1..Len(FactorShapes(c)) |-> IF c.mix = "none" \/ (k = MixAt(c) /\ MixType(c) = "int64") THEN 1 ELSE 2],
-     cden   |-> IF c.mix # "none" /\ c.op = "tucker" THEN 2 ELSE 1,
+     dtypes |-> [k \in 1..Len(FactorShapes(c)) |-> IF c.mix = "f32_all" \/ (c.mix # "none" /\ k = MixAt(c)) THEN MixType(c) ELSE "float64"],
+     dens   |-> [k \in 1..Len(FactorShapes(c)) |-> IF c.mix \in {"none", "f32_all"} \/ (k = MixAt(c) /\ MixType(c) = "int64") THEN 1 ELSE 2],
+     cden   |-> IF c.mix \notin {"none", "f32_all"} /\ c.op = "tucker" THEN 2 ELSE 1,
+     alldtype |-> IF c.mix = "f32_all" THEN "float32" ELSE "float64",       \* weights, core, projections
      imk    |-> IF c.mix \in {"cplx_first", "cplx_last"} THEN MixAt(c) ELSE 0,
      outdtype |-> MixOut(c)]
 \* which named class a perturbation belongs to ("none": valid, "other": no obligation)
 ClassOfBad(c) ==
     CASE c.bad = "none" -> "none"
-      [] c.bad \in {"fcols", "chain", "pcols", "bcols", "ccols"} -> "ranks"
+      [] c.bad \in {"fcols", "chain", "pcols", "bcols", "ccols", "wlen", "wshape"} -> "ranks"
       [] c.bad \in {"bound_first", "bound_last", "closure", "closure_first"} -> "boundary"
       [] c.bad \in NonOrthNames -> "orth"
       [] OTHER -> "other"
@@ -472,10 +499,10 @@ GenIn(c) ==
     LET fsh == FactorShapes(c)
         fs  == [k \in 1..Len(fsh) |-> GenT(fsh[k], k)]
         R   == c.rank[1] IN
-    CASE c.op = "cp"     -> [hasw |-> c.hasw, w |-> IF c.hasw THEN GenW(R + (IF c.bad = "wlen" THEN c.dl ELSE 0), 1) ELSE <<>>, fs |-> fs]
+    CASE c.op = "cp"     -> [hasw |-> c.hasw, w |-> IF c.hasw THEN GenW(Size(WShapeOf(c)), 1) ELSE <<>>, wshape |-> WShapeOf(c), fs |-> fs]
       [] c.op = "tucker" -> [core |-> GenT(IF c.tr THEN c.shape ELSE c.rank, 9), fs |-> fs]
       [] c.op \in {"tt", "tr", "ttm"} -> [fs |-> fs]
-      [] c.op = "p2"     -> [hasw |-> c.hasw, w |-> IF c.hasw THEN GenW(R, 1) ELSE <<>>, fs |-> fs,
+      [] c.op = "p2"     -> [hasw |-> c.hasw, w |-> IF c.hasw THEN GenW(Size(WShapeOf(c)), 1) ELSE <<>>, wshape |-> WShapeOf(c), fs |-> fs,
                              ps |-> IF c.bad = "nproj" THEN Tail(GenPs(c)) ELSE GenPs(c),
                              pden |-> IF c.bad = "nonorth_half" THEN 2 ELSE 1]
 
@@ -528,13 +555,26 @@ MagMove(kd, in) ==
             X = TuckerDense([in EXCEPT !.core = Build(in.core.shape, LAMBDA g : IF g[1] = 0 THEN a * At(in.core, g) ELSE At(in.core, g))])
       [] OTHER -> Len(in.fs) = 1 \/ X = Dense(kd, [in EXCEPT !.fs[2] = ScaleT(@, a)])                       \* another core
 
+OptMixOK(c) ==      \* Tucker options x complex factor: the option-dependent tensor is additive in the complex part
+    LET in == GenIn(c)  k == MixAt(c)  Y == GenT(in.fs[k].shape, 7)
+        D  == TuckerDenseOpt(in, c.skip, c.tr, c.modes) IN
+    /\ ValidTuckerOpt(in, c.skip, c.tr, c.modes) /\ k \in 1..Len(in.fs)
+    /\ (c.skip # k - 1 =>
+          TuckerDenseOpt([in EXCEPT !.fs[k] = AddT(in.fs[k], Y)], c.skip, c.tr, c.modes)
+             = AddT(D, TuckerDenseOpt([in EXCEPT !.fs[k] = Y], c.skip, c.tr, c.modes)))
+    /\ TuckerSeqOpt(in, c.skip, c.tr, c.modes) = D
+    \* a left-out factor does not contribute at all (in particular no imaginary part)
+    /\ (c.skip = k - 1 => TuckerDenseOpt([in EXCEPT !.fs[k] = Y], c.skip, c.tr, c.modes) = D)
+
 CfgOK(c) ==
+    IF c.mix # "none" /\ HasOpt(c) THEN OptMixOK(c) ELSE
     IF c.mix # "none" THEN MixCfgOK(c) ELSE
     IF HasOpt(c) THEN OptCfgOK(c) ELSE
     LET in == GenIn(c)  kd == c.op IN
     /\ ValidCfg(c)
     /\ (c.late => ValidCfg(BaseOf(c)) /\ Valid(kd, GenIn(BaseOf(c))))      \* the object is built from a valid configuration
     /\ (c.mag # 0 => c.bad = "none" /\ MagMove(kd, in))
+    /\ (c.tmag # 0 => c.bad = "none" /\ Dense(kd, [in EXCEPT !.fs[1] = ScaleT(in.fs[1], 2)]) = ScaleT(Dense(kd, in), 2))
     /\ ClassOf(kd, in) = ClassOfBad(c)                  \* the perturbation table and the predicates agree
     /\ (ClassOfBad(c) \in {"ranks", "boundary", "orth"} <=> MustReject(kd, in))
     \* the non-orthonormal family really contains Gram deviations of both signs
